@@ -219,6 +219,9 @@ def main():
     ctx.beat()
     try:
         mod = importlib.import_module(f"props.{prop.lower()}")
+        if prop not in ("C07", "C13", "C16"):   # these run the API in worker processes with their own argument handling
+            import common as _c
+            _c.install_layout_variation()
         mod.run(ctx)
         ctx.flush()
         ext_dir = os.path.join(HERE, "props")
@@ -322,6 +325,7 @@ def main():
         "extract": extract_note,
         "notes": ctx.notes,
         "object_history": dict(__import__("common").HISTORY_STATS),
+        "argument_layouts": dict(__import__("common").LAYOUT_STATS),
         "source_fingerprint": {"changed_since_record": src_changed[:40], "escalation": ctx.escalate},
         "exhaustive": bool(getattr(ctx, "exhaustive", False)),
     }
